@@ -151,7 +151,13 @@ func (s *BufferedWriteSyncer) Write(bs []byte) (int, error) {
 		}
 	}
 
-	return s.writer.Write(bs)
+	n, err := s.writer.Write(bs)
+	if s.stopped && err == nil {
+		// The flush loop has exited and a repeated Stop does not flush,
+		// so nothing would ever deliver this data: don't hold it back.
+		err = s.writer.Flush()
+	}
+	return n, err
 }
 
 // Sync flushes buffered log data into disk directly.
@@ -198,6 +204,9 @@ func (s *BufferedWriteSyncer) Stop() (err error) {
 		}
 
 		if s.stopped {
+			// Already stopped: writes since then were flushed as they
+			// happened (see Write); only the sink is left to sync.
+			err = s.WS.Sync()
 			return false
 		}
 		s.stopped = true
